@@ -950,13 +950,14 @@ Proof.
   assert (Hst : forall st, In st (r_stmts r) -> Forall S (s_spans st)).
   { intros st Hin. apply Forall_forall. intros sp Hsp. unfold S, spans_of. apply in_or_app. right.
     apply in_flat_map. eauto. }
-  assert (L1 : loc S (init_vars (length (r_vars r)) ;;; iterM (fun s => outer_statement kinds (gfix fuel) (afix kinds (gfix fuel) fuel) s ctx_new) (r_stmts r))).
+  assert (L1 : loc S (init_vars (length (r_vars r)) ;;; iterM (fun s => outer_statement kinds (gfix fuel) (afix kinds (gfix fuel) fuel) s ctx_new) (check_order (r_stmts r)))).
   { apply loc_bind; [apply loc_init_vars|intros _]. apply loc_iterM_in. intros st Hin.
-    apply (loc_outer_statement S kinds (gfix fuel) PG _ PA). now apply Hst. }
-  unfold solve. unfold bind at 1. specialize (L1 empty_st (gspans_empty S)). unfold bind at 1 in L1.
+    apply (loc_outer_statement S kinds (gfix fuel) PG _ PA). apply Hst.
+    unfold check_order in Hin. apply in_app_or in Hin as [Hin|Hin]; [apply filter_In in Hin; tauto|exact Hin]. }
+  unfold bind at 1. specialize (L1 empty_st (gspans_empty S)). unfold bind at 1 in L1.
   destruct (init_vars (length (r_vars r)) empty_st) as [[u0 s0]| | |]; try discriminate.
-  - unfold bind at 1.
-    destruct (iterM (fun s => outer_statement kinds (gfix fuel) (afix kinds (gfix fuel) fuel) s ctx_new) (r_stmts r) s0)
+  - rewrite solve_order. unfold bind at 1.
+    destruct (iterM (fun s => outer_statement kinds (gfix fuel) (afix kinds (gfix fuel) fuel) s ctx_new) (check_order (r_stmts r)) s0)
       as [[u1 s1]| | |] eqn:Eit; try discriminate.
     + destruct L1 as [G1 _].
       destruct (find_start (r_vars r)) as [v|] eqn:Efs.
@@ -1016,16 +1017,18 @@ Qed.
 
 (* the top level: the type checker reports the error of the first top-level statement (in the order name resolution
    and dependency ordering left them in) whose check fails *)
-Theorem typecheck_first_error fuel vars l1 st l2 u s1 e more :
+Theorem typecheck_first_error fuel vars stmts l1 st l2 u s1 e more :
   let kinds := kinds_of vars 1 (PositiveMap.empty varkind) in
   let outer := fun s => outer_statement kinds (gfix fuel) (afix kinds (gfix fuel) fuel) s ctx_new in
+  check_order stmts = l1 ++ st :: l2 ->
   (init_vars (length vars) ;;; iterM outer l1) empty_st = Ok (u, s1) ->
   outer st s1 = Err e more ->
-  typecheck fuel (mkResolved vars (l1 ++ st :: l2)) = Err e more.
+  typecheck fuel (mkResolved vars stmts) = Err e more.
 Proof.
-  intros kinds outer H Hx. unfold typecheck. cbn [r_vars r_stmts]. fold kinds. unfold solve. fold outer.
+  intros kinds outer Ho H Hx. unfold typecheck. cbn [r_vars r_stmts]. fold kinds.
   unfold bind at 1. unfold bind at 1 in H.
   destruct (init_vars (length vars) empty_st) as [[u0 s0]| | |]; try discriminate.
+  rewrite solve_order. fold outer. rewrite Ho.
   unfold bind at 1. rewrite (iterM_first_error outer l1 st l2 s0 u s1 e more H Hx). reflexivity.
 Qed.
 
@@ -1033,17 +1036,18 @@ Theorem typecheck_error_is_first fuel vars stmts e more :
   let kinds := kinds_of vars 1 (PositiveMap.empty varkind) in
   let outer := fun s => outer_statement kinds (gfix fuel) (afix kinds (gfix fuel) fuel) s ctx_new in
   typecheck fuel (mkResolved vars stmts) = Err e more ->
-  (exists l1 st l2 u s1, stmts = l1 ++ st :: l2 /\
+  (exists l1 st l2 u s1, check_order stmts = l1 ++ st :: l2 /\
       (init_vars (length vars) ;;; iterM outer l1) empty_st = Ok (u, s1) /\ outer st s1 = Err e more) \/
-  (exists u s1, (init_vars (length vars) ;;; iterM outer stmts) empty_st = Ok (u, s1)).
+  (exists u s1, (init_vars (length vars) ;;; iterM outer (check_order stmts)) empty_st = Ok (u, s1)).
 Proof.
-  intros kinds outer H. unfold typecheck in H. cbn [r_vars r_stmts] in H. fold kinds in H. unfold solve in H. fold outer in H.
+  intros kinds outer H. unfold typecheck in H. cbn [r_vars r_stmts] in H. fold kinds in H.
   unfold bind at 1 in H.
   destruct (init_vars (length vars) empty_st) as [[u0 s0]| | |] eqn:Ei; try discriminate.
-  - unfold bind at 1 in H. destruct (iterM outer stmts s0) as [[u1 s1]| | |] eqn:Eit; try discriminate.
+  - rewrite solve_order in H. fold outer in H.
+    unfold bind at 1 in H. destruct (iterM outer (check_order stmts) s0) as [[u1 s1]| | |] eqn:Eit; try discriminate.
     + right. exists u1, s1. unfold bind. rewrite Ei. exact Eit.
-    + injection H as <- <-. left. destruct (iterM_error_is_first outer stmts s0 _ _ Eit) as (l1 & x & l2 & u & s1 & -> & H1 & H2).
-      exists l1, x, l2, u, s1. split; [reflexivity|]. split; [|assumption]. unfold bind. rewrite Ei. exact H1.
+    + injection H as <- <-. left. destruct (iterM_error_is_first outer (check_order stmts) s0 _ _ Eit) as (l1 & x & l2 & u & s1 & Eo & H1 & H2).
+      exists l1, x, l2, u, s1. split; [exact Eo|]. split; [|assumption]. unfold bind. rewrite Ei. exact H1.
   - exfalso. clear H. revert Ei. generalize (length vars). intros n. generalize empty_st.
     induction n as [|n IH]; intros s0 Ei; cbn [init_vars] in Ei; [discriminate|].
     unfold bind in Ei. rewrite push_type_eq in Ei. eapply IH; exact Ei.
